@@ -59,8 +59,12 @@ func NewBlockDownloader(txProcessor TxProcessor, blockTxManager BlockTxManager, 
 }
 
 func (bd *BlockDownloader) SetCanceller(id uuid.UUID, canceller BlockRequestCanceller) {
-	bd.stateLock.Lock()
+	// RequesterID reads under the main lock and can be called by the block handler before this.
+	bd.Lock()
 	bd.requesterID = id
+	bd.Unlock()
+
+	bd.stateLock.Lock()
 	bd.canceller = canceller
 	bd.stateLock.Unlock()
 }
